@@ -1,0 +1,7 @@
+//go:build !verif
+
+package pbft
+
+// verifStop is the stepping hook of the /verif harness; without the build tag "verif" it
+// never stops the receive routine.
+func verifStop(cs *ConsensusState) bool { return false }
